@@ -61,8 +61,8 @@ impl TypeChecker {
         match &decl.node {
             Declaration::Import(_) => {} // Already handled
             Declaration::Const(konst) => self.check_const(konst, decl.span),
-            Declaration::Model(model) => self.check_model(model),
-            Declaration::Class(class) => self.check_class(class),
+            Declaration::Model(model) => self.check_model(model, decl.span),
+            Declaration::Class(class) => self.check_class(class, decl.span),
             Declaration::Trait(tr) => self.check_trait(tr),
             Declaration::Newtype(nt) => self.check_newtype(nt),
             Declaration::Enum(en) => self.check_enum(en),
@@ -76,7 +76,7 @@ impl TypeChecker {
         self.check_and_resolve_const(konst, span);
     }
 
-    fn check_model(&mut self, model: &ModelDecl) {
+    fn check_model(&mut self, model: &ModelDecl, span: Span) {
         self.symbols.enter_scope(ScopeKind::Model);
 
         // Validate @derive decorators
@@ -144,13 +144,13 @@ impl TypeChecker {
         }
 
         if has_validate {
-            self.check_validate_derive_model(model);
+            self.check_validate_derive_model(model, span);
         }
 
         self.symbols.exit_scope();
     }
 
-    fn check_validate_derive_model(&mut self, model: &ModelDecl) {
+    fn check_validate_derive_model(&mut self, model: &ModelDecl, model_span: Span) {
         // Validate that validate() exists and has the expected signature.
         let Some(TypeInfo::Model(info)) = self.lookup_type_info(&model.name) else {
             return;
@@ -159,10 +159,17 @@ impl TypeChecker {
         let Some(validate) = info.methods.get("validate") else {
             self.errors.push(errors::validate_derive_missing_validate_method(
                 &model.name,
-                Span::default(),
+                model_span,
             ));
             return;
         };
+        // Signature problems are reported at the `validate` method itself.
+        let validate_span = model
+            .methods
+            .iter()
+            .find(|m| m.node.name == "validate")
+            .map(|m| m.span)
+            .unwrap_or(model_span);
 
         let expected = "def validate(self) -> Result[Self, E]";
         let found_sig = self.method_sig_string_named("validate", validate);
@@ -173,7 +180,7 @@ impl TypeChecker {
                 &model.name,
                 expected,
                 &found_sig,
-                Span::default(),
+                validate_span,
             ));
             return;
         }
@@ -196,7 +203,7 @@ impl TypeChecker {
                     &model.name,
                     expected,
                     &found_sig,
-                    Span::default(),
+                    validate_span,
                 ));
             }
         } else {
@@ -204,7 +211,7 @@ impl TypeChecker {
                 &model.name,
                 expected,
                 &found_sig,
-                Span::default(),
+                validate_span,
             ));
         }
     }
@@ -284,7 +291,7 @@ impl TypeChecker {
         }
     }
 
-    fn check_class(&mut self, class: &ClassDecl) {
+    fn check_class(&mut self, class: &ClassDecl, span: Span) {
         self.symbols.enter_scope(ScopeKind::Class);
 
         // Validate @derive decorators
@@ -293,7 +300,7 @@ impl TypeChecker {
         // Check base class exists
         if let Some(base) = &class.extends {
             if self.symbols.lookup(base).is_none() {
-                self.errors.push(errors::unknown_symbol(base, Span::default()));
+                self.errors.push(errors::unknown_symbol(base, span));
             }
         }
 
